@@ -23,31 +23,34 @@ theorem EqOff.trans {L : Layout} {σ τ υ : SrcSt} (h1 : EqOff L σ τ) (h2 : E
 
 /-! ### names -/
 
-def _root_.CV.GenFlat.Atom.names : Atom → List String
+/-- the memory operands (variables and array elements) something mentions -/
+def _root_.CV.GenFlat.Atom.names : Atom → List Atom
   | .const _ => []
-  | .var v => [v]
+  | .var v => [.var v]
+  | .el t i => [.el t i]
 
-def _root_.CV.GenReg.RA.names : RA → List String
+def _root_.CV.GenReg.RA.names : RA → List Atom
   | .of a => Atom.names a
   | _ => []
 
-def _root_.CV.GenReg.LV.names : LV → List String
-  | .var v => [v]
+def _root_.CV.GenReg.LV.names : LV → List Atom
+  | .var v => [.var v]
+  | .el t i => [.el t i]
   | _ => []
 
-def _root_.CV.GenReg.RStmt.names : RStmt → List String
+def _root_.CV.GenReg.RStmt.names : RStmt → List Atom
   | .asg v a => v.names ++ a.names
   | .bin v _ a b => v.names ++ a.names ++ b.names
   | .opasg v _ a => v.names ++ a.names
   | .inc v | .dec v => v.names
 
-def Cond.names : Cond → List String
+def Cond.names : Cond → List Atom
   | .cmp _ a b => a.names ++ b.names
   | .truth v | .nottruth v => v.names
   | .and a b | .or a b => Cond.names a ++ Cond.names b
   | .not c => Cond.names c
 
-def SStmt.names : SStmt → List String
+def SStmt.names : SStmt → List Atom
   | .flat s => s.names
   | .skip => []
   | .seq a b => SStmt.names a ++ SStmt.names b
@@ -57,8 +60,16 @@ def SStmt.names : SStmt → List String
   | .doWhile b c => SStmt.names b ++ c.names
   | .for i c u b => i.names ++ c.names ++ u.names ++ SStmt.names b
 
-/-- no variable of the program lives in the scratch cell -/
-def NoTmp (L : Layout) (ns : List String) : Prop := ∀ v ∈ ns, L v ≠ L "cctmp"
+/-- the cell(s) an operand can denote are not the scratch cell; for an element subscripted by a register:
+    whatever the register holds (true of every layout that places `cctmp` below the arrays) -/
+def CellOK (L : Layout) : Atom → Prop
+  | .const _ => True
+  | .var v => L v ≠ L "cctmp"
+  | .el t (.k n) => L t + BitVec.ofNat 16 n ≠ L "cctmp"
+  | .el t _ => ∀ b : Byte, L t + b.zeroExtend 16 ≠ L "cctmp"
+
+/-- no operand of the program lives in the scratch cell -/
+def NoTmp (L : Layout) (ns : List Atom) : Prop := ∀ a ∈ ns, CellOK L a
 
 /-! ### the plain reading -/
 
@@ -98,7 +109,15 @@ theorem rval_eqOff (L : Layout) {σ τ : SrcSt} (h : EqOff L σ τ) (a : RA) (hn
     | const n => rfl
     | var v =>
       simp only [rval, val]
-      exact h.2.2 _ (hn v (by simp [RA.names, Atom.names]))
+      exact h.2.2 _ (hn (.var v) (by simp [RA.names, Atom.names]))
+    | el t i =>
+      have hc := hn (.el t i) (by simp [RA.names, Atom.names])
+      simp only [rval, val]
+      rw [h.1, h.2.1]
+      cases i with
+      | k n => exact h.2.2 _ hc
+      | x => exact h.2.2 _ (hc τ.x)
+      | y => exact h.2.2 _ (hc τ.y)
 
 theorem wr_eqOff (L : Layout) {σ τ : SrcSt} (h : EqOff L σ τ) (v : LV) (b : Byte) :
     EqOff L (wr L σ v b) (wr L τ v b) := by
@@ -112,6 +131,14 @@ theorem wr_eqOff (L : Layout) {σ τ : SrcSt} (h : EqOff L σ τ) (v : LV) (b : 
     by_cases e : L n = a
     · subst e; simp
     · simp [e, h.2.2 a ha]
+  | el t i =>
+    refine ⟨h.1, h.2.1, ?_⟩
+    intro a ha
+    simp only [wr]
+    rw [h.1, h.2.1]
+    by_cases e : elAddr L τ.x τ.y t i = a
+    · subst e; simp
+    · simp [e, h.2.2 a ha]
 
 theorem tmpWrite_eqOff (L : Layout) (σ : SrcSt) (op : BOp) (y : RA) : EqOff L (tmpWrite L σ op y) σ := by
   unfold tmpWrite
@@ -122,9 +149,9 @@ theorem tmpWrite_eqOff (L : Layout) (σ : SrcSt) (op : BOp) (y : RA) : EqOff L (
     simp [this]
   · exact EqOff.refl L σ
 
-theorem NoTmp.left {L : Layout} {a b : List String} (h : NoTmp L (a ++ b)) : NoTmp L a :=
+theorem NoTmp.left {L : Layout} {a b : List Atom} (h : NoTmp L (a ++ b)) : NoTmp L a :=
   fun v hv => h v (by simp [hv])
-theorem NoTmp.right {L : Layout} {a b : List String} (h : NoTmp L (a ++ b)) : NoTmp L b :=
+theorem NoTmp.right {L : Layout} {a b : List Atom} (h : NoTmp L (a ++ b)) : NoTmp L b :=
   fun v hv => h v (by simp [hv])
 
 theorem ra_names_lv (v : LV) : v.ra.names = v.names := by cases v <;> rfl
@@ -145,6 +172,7 @@ theorem orZero_apply (L : Layout) (σ : SrcSt) (op : BOp) (x y : RA) (h : orZero
       subst this
       simp [BOp.apply, rval, val]
     | var _ => simp at hy
+    | el _ _ => simp at hy
   | x => simp at hy
   | y => simp at hy
 
